@@ -172,6 +172,8 @@ class Table:
                 return Val("const", ("str", op["str"]))
             if "fn" in op:
                 return Val("const", ("fn", norm(op["fn"])))
+            if "static" in op:
+                return Val("sym", "static:" + norm(op["static"]))          # (a reference to a static: named, not by its allocation id)
             return Val("sym", op.get("text", "?"))
         pl = op["place"]
         if pl["l"] in env and all(pe["k"] == "deref" for pe in pl["p"]):
@@ -779,6 +781,15 @@ def eval_desc(desc, env):
         a, b = eval_desc(sc[1][0], env), eval_desc(sc[1][1], env)
         return {"Eq": a == b, "Ne": a != b, "Lt": a < b, "Le": a <= b, "Gt": a > b, "Ge": a >= b,
                 "BitAnd": bool(a) and bool(b), "BitOr": bool(a) or bool(b), "BitXor": bool(a) != bool(b)}[sc[0]]
+    if sc and sc[0].split("::")[-1] in ("min", "max") and len(sc[1]) == 2:
+        a, b = int(eval_desc(sc[1][0], env)), int(eval_desc(sc[1][1], env))
+        return min(a, b) if sc[0].endswith("min") else max(a, b)
+    if sc and sc[0].split("::")[-1] == "clamp" and len(sc[1]) == 3:
+        a, lo, hi = (int(eval_desc(x, env)) for x in sc[1])
+        return max(lo, min(a, hi))
+    if sc and sc[0].split("::")[-1] in ("from", "into") and len(sc[1]) == 1:
+        v = eval_desc(sc[1][0], env)
+        return int(v) if isinstance(v, bool) else v                  # numeric conversions keep the value; bool -> 0 / 1
     if sc and len(sc[1]) == 1 and sc[0].split("::")[-1] in CHAR_MODELS and ("char" in sc[0] or "::" not in sc[0]):
         return CHAR_MODELS[sc[0].split("::")[-1]](int(eval_desc(sc[1][0], env)))
     raise Unknown(desc)
